@@ -1,6 +1,7 @@
 package main
 
 import (
+	"strings"
 
 	"github.com/z7zmey/php-parser/pkg/version"
 	"github.com/z7zmey/php-parser/verifmc/core"
@@ -103,6 +104,16 @@ func c05Run(c *core.Ctx) {
 				continue
 			}
 			c05One(c, mkCase(src, v, "special head/body/tail or literal form"))
+		}
+	}
+	// multi-line regions (see C04): tokens that contain line terminators of every kind
+	for _, tpl := range c04Regions {
+		for _, r := range c04RegionTexts(3) {
+			for _, v := range []*version.Version{drive.V74, drive.V56} {
+				if c.Next() {
+					c05One(c, mkCase(strings.Replace(tpl, "R", r, 1), v, "multi-line region with a mix of line terminators"))
+				}
+			}
 		}
 	}
 }
